@@ -125,6 +125,30 @@ func PIDClassesStream(seed int64) *Stream {
 	return &Stream{Name: "pid-classes", Pkts: ps, Bytes: EncodePkts(ps)}
 }
 
+// ContinuousSectionsStream: sections packed back to back on the SDT and the PMT PID (ISO 13818-1 2.4.4), so that
+// sections end in the pointer area of the packet in which the next one starts.
+func ContinuousSectionsStream(seed int64) *Stream {
+	var ps []*ref.Pkt
+	c0, c1, c2 := uint8(0), uint8(4), uint8(8)
+	ps = append(ps, Packetize(PSIUnit(0, 0, [][]byte{SecPAT(modelPAT(0, 0x10, 1, 0x1000), ref.SecHdr{CNI: true})}, nil), nil, &c0, true)...)
+	var sdt, pmt [][]byte
+	for k := 0; k < 4; k++ {
+		sdt = append(sdt, SecSDT(modelSDT(2+k%3), ref.SecHdr{CNI: true, SN: uint8(k), LSN: 3}))
+		pmt = append(pmt, SecPMT(modelPMT(1, 0x100, 3+2*k), ref.SecHdr{CNI: true, Version: uint8(k)}))
+	}
+	a, _, _ := packContinuous(0x11, sdt, &c1)
+	b, _, _ := packContinuous(0x1000, pmt, &c2)
+	for i := 0; i < len(a) || i < len(b); i++ {
+		if i < len(a) {
+			ps = append(ps, a[i])
+		}
+		if i < len(b) {
+			ps = append(ps, b[i])
+		}
+	}
+	return &Stream{Name: "continuous-sections", Pkts: ps, Bytes: EncodePkts(ps)}
+}
+
 // c19Streams: the standard streams plus one with adaptation fields of every kind.
 func c19Streams(seed int64) []*Stream { return c19StreamsT(seed, false) }
 
@@ -153,7 +177,7 @@ func c19StreamsT(seed int64, thorough bool) []*Stream {
 		}
 		ss = append(ss, BuildStream("hostile-contents", lists, roundRobin(lists), nil))
 	}
-	ss = append(ss, VersionToggleStream(seed), PIDClassesStream(seed))
+	ss = append(ss, VersionToggleStream(seed), PIDClassesStream(seed), ContinuousSectionsStream(seed))
 	{ // a longer multiplex: PAT, PMT, two PES PIDs with several units, a 2-packet SDT (13 packets)
 		ccs := []uint8{0, 0, 4, 9, 15}
 		pat, pmt, sdt := modelPAT(1, 0x1000), modelPMT(1, 0x100, 2), modelSDT(7)
@@ -470,6 +494,23 @@ func c19Parsers(c *mc.Ctx, st *Stream, refPk []*ref.Pkt) {
 					}
 				}
 				if found < 0 {
+					// the end of a section that sits in the pointer area of the packet starting the next unit is handed
+					// over as a view of that packet: same header without payload_unit_start, payload = the pointer area
+					for i := next[pid]; i < len(refPk) && found < 0; i++ {
+						q := refPk[i]
+						if q.PID == pid && q.PUSI && q.HasPL && len(q.Payload) > 0 && q.Payload[0] > 0 && int(q.Payload[0]) < len(q.Payload) &&
+							!p.Header.PayloadUnitStartIndicator && bytes.Equal(p.Payload, q.Payload[1:1+int(q.Payload[0])]) && p.Header.ContinuityCounter == q.CC {
+							found = -2 - i
+						}
+						if q.PID == pid && q.HasPL {
+							break // only the very next payload packet of the PID qualifies
+						}
+					}
+				}
+				if found <= -2 {
+					c.Ev.Class("parser-handed-section-end-view", 1)
+					found = -1
+				} else if found < 0 {
 					bad = "parser was handed a packet out of arrival order, twice, or not from the stream"
 				} else {
 					next[pid] = found + 1
@@ -563,7 +604,20 @@ func c19Parsers(c *mc.Ctx, st *Stream, refPk []*ref.Pkt) {
 			}
 		}
 		if mode < 0 && st.Name != "headless-lookalikes" { // units cut by a counter gap are never assembled: C06's subject
-			if mc.Canon(groups) != mc.Canon(expGroups) {
+			// section-end views (index -1) are not packets of their own
+			stripped := map[uint16][][]int{}
+			for pid, gs := range groups {
+				for _, g := range gs {
+					var h []int
+					for _, i := range g {
+						if i >= 0 {
+							h = append(h, i)
+						}
+					}
+					stripped[pid] = append(stripped[pid], h)
+				}
+			}
+			if mc.Canon(stripped) != mc.Canon(expGroups) {
 				rep("parser-unit-partition", fmt.Sprintf("parser saw groups %v, the stream carries %v", groups, expGroups))
 			}
 		} else if st.Name != "headless-lookalikes" {
@@ -572,7 +626,13 @@ func c19Parsers(c *mc.Ctx, st *Stream, refPk []*ref.Pkt) {
 			// carried units, at most once and in per-PID order
 			for pid, gs := range groups {
 				k := 0
-				for _, g := range gs {
+				for _, gv := range gs {
+					var g []int // without the section-end views
+					for _, i := range gv {
+						if i >= 0 {
+							g = append(g, i)
+						}
+					}
 					for k < len(expGroups[pid]) && fmt.Sprint(expGroups[pid][k]) != fmt.Sprint(g) {
 						k++
 					}
@@ -621,15 +681,26 @@ func c19Parsers(c *mc.Ctx, st *Stream, refPk []*ref.Pkt) {
 			}
 		default:
 			c.Ev.Class("parser-failing", 1)
-			// everything delivered is a subsequence of the default output
-			k := 0
-			for _, x := range plain {
-				if k < len(got) && got[k] == x {
-					k++
-				}
+			// everything delivered on a PID is a subsequence of that PID's default output (across PIDs the order may
+			// change: a PAT that failed to parse is not learnt, and a PMT unit that preceded the next PAT is then
+			// delivered when its successor starts)
+			plainBy, gotBy := map[uint16][]string{}, map[uint16][]string{}
+			for _, x := range plainObjs.Data {
+				plainBy[x.PID] = append(plainBy[x.PID], mc.Canon(x))
 			}
-			if k != len(got) {
-				rep("parser-failure-alters-output", "data delivered around a failing parser are not a subsequence of the default output")
+			for _, x := range o.Data {
+				gotBy[x.PID] = append(gotBy[x.PID], mc.Canon(x))
+			}
+			for pid, g := range gotBy {
+				k := 0
+				for _, x := range plainBy[pid] {
+					if k < len(g) && g[k] == x {
+						k++
+					}
+				}
+				if k != len(g) {
+					rep("parser-failure-alters-output", fmt.Sprintf("data delivered on PID %#x around a failing parser are not a subsequence of that PID's default output", pid))
+				}
 			}
 		}
 		c.Ev.Distinct(fmt.Sprintf("%s|parser|%d", st.Name, mode))
